@@ -46,8 +46,10 @@ pub struct TmplGen<'a> {
 }
 
 const TAGS: [&str; 5] = ["v", "view", "text", "my-comp", "x-y"];
-const STATIC_TEXTS: [&str; 12] = [
+const STATIC_TEXTS: [&str; 16] = [
     "hello", "a b", " lead", "trail ", "x&lt;y", "&amp;amp;", "&#65;&#x42;", "q&quot;q", "&nbsp;", "汉\u{1f600}", "l1\nl2", "}{ ) (",
+    // braces that only exist after entity decoding: a `{` right before a binding, a literal `{{x}}`, a lone `{`
+    "a&#123;", "&#123;&#123;x}}", "{ x }", "&#123;&#123;&#123;y}}}",
 ];
 const ATTR_NAMES: [&str; 5] = ["a", "hidden", "my-prop", "value", "src"];
 const EVENTS: [&str; 3] = ["tap", "touch-start", "custom_ev"];
@@ -140,7 +142,7 @@ impl<'a> TmplGen<'a> {
         match self.rng.below(if allow_static { 6 } else { 3 }) {
             0 | 1 => self.binding(),
             2 => {
-                let a = *self.rng.pick(&["p", "x-", " ", "&lt;"]);
+                let a = *self.rng.pick(&["p", "x-", " ", "&lt;", "&#123;", "b&#123;&#123;"]);
                 let b = *self.rng.pick(&["", "q", " y"]);
                 format!("{}{}{}{}", a, self.binding(), b, if self.rng.chance(1, 3) { self.binding() } else { String::new() })
             }
@@ -212,7 +214,12 @@ impl<'a> TmplGen<'a> {
                 5 => (format!("model:{}", self.rng.pick(&["value", "my-prop"])), Some(self.model_value()), "model:"),
                 6 => (
                     format!("change:{}", self.rng.pick(&["prop", "my-prop"])),
-                    Some(if self.modules.is_empty() { self.binding() } else { format!("{{{{ {}.f }}}}", self.modules[0]) }),
+                    // a change listener is a function: a data function, a member, or a conditional between functions
+                    Some(if self.modules.is_empty() {
+                        self.rng.pick(&["{{ f }}", "{{f}}", "{{ a ? f : o.fn }}", "{{ o.fn }}", "{{ l[0] || f }}"]).to_string()
+                    } else {
+                        format!("{{{{ {}.f }}}}", self.modules[0])
+                    }),
                     "change:",
                 ),
                 7 => (format!("worklet:{}", self.rng.pick(&["w", "on-gesture"])), Some("handler".into()), "worklet:"),
